@@ -34,7 +34,7 @@ P = {
          ['"Execute returns true for every input" (needs a global sweep invariant)'], '5 C11'),
  'C12': ('Proof that CleanUp/Clear reset every scratch member, that RectClip64::Execute starts every path with empty scratch state, the DoGroupOffset per-path invariant, and AddReuseableData (copies every local minimum, container untouched); Clipper64::Execute empties the solutions first and cleans up last; ClipperOffset::Execute overloads start from fresh targets and release the temporary solution exactly once.',
          ['bit-identical reruns, arbitrary call sequences, reusable-container sharing'], '5 C12'),
- 'C13': ('Proof that LocMinSorter is the strict weak order (y desc, x asc) and IntersectListSort its counterpart; IsValidAelOrder orders two edges that are apart at the scanline by x alone; TopX/GetDx free of integer overflow; GetSegmentIntersectPt invariant under translation (determinant and parameter from differences only); bounded check that AddPaths_ flags exactly the cyclic local extrema independent of start vertex, duplicates and closing vertex.',
+ 'C13': ('Proof that LocMinSorter is the strict weak order (y desc, x asc) and IntersectListSort its counterpart; IsValidAelOrder orders two edges that are apart at the scanline by x alone; TopX/GetDx free of integer overflow; GetSegmentIntersectPt invariant under translation (determinant and parameter from differences only); IsContributingClosed symmetric under path reversal (Positive<->Negative) and subject/clip exchange (Intersection, Union, Xor); bounded check that AddPaths_ flags exactly the cyclic local extrema independent of start vertex, duplicates and closing vertex.',
          ['order-independence of the sweep, all algebraic identities and transformations'], '5 C13'),
  'C14': ("Every assigns clause of every function under contract names only parameters and object members (CBMC checks every write against it, so a static scratch variable fails an assigns obligation); supporting static scan (nm on the freshly built objects plus a translation unit instantiating the header-only API and the C export layer, with and without USINGZ): every symbol in a writable section is std::__ioinit, declared const in the sources, or a string-literal pointer that is never written (known finding F12: the USINGZ export layer's callback globals).",
          ['interleavings (CBMC has no threads); nothing here explores schedules'], '5 C14'),
